@@ -317,6 +317,65 @@ def trts(repo, rep):
         rep.ok("R-DEP", site, "(None, None, None) exactly when |cos H0| > 1, cos H0 == (sin h0 - sin lat sin dec2)/(cos lat cos dec2)")
     else:
         rep.violation("R-DEP", site, "no-times-condition", "the no-times result is not returned exactly when |(sin h0 - sin lat sin dec)/(cos lat cos dec)| > 1: " + detail)
+    # R-REFINE: the body's coordinates are interpolated at the day fraction m itself; a returned time must therefore be the last
+    # iterate plus its correction.  Folding it back by a whole day *after* a correction (a 0..1 wrap on the refined value)
+    # returns an instant 24 h away from the one the refinement converged to, where a moving body is elsewhere.
+    rep.rule("R-REFINE", "no whole-day adjustment is applied to a time after it was corrected from the interpolated position")
+    wrapped = None
+    n_comp = 0
+
+    def spine(t, depth=0):
+        """phi nodes reachable from the top of a value through + and * and phi branches only (not through call arguments)"""
+        if depth > 40:
+            return
+        if t[0] == "phi":
+            yield t
+            yield from spine(t[2], depth + 1)
+            yield from spine(t[3], depth + 1)
+        elif t[0] in ("add", "mul"):
+            for x in t[1:]:
+                yield from spine(x, depth + 1)
+        elif t[0] == "loopout" and len(t) == 3 and t[2][0] == "loop":
+            # `while m < 0 or m > 1: m += / -= 1`: a wrap written as a loop - reported as a pseudo-phi (test on the entry value)
+            inits, body = dict(t[2][3]), dict(t[2][4])
+            init, step = inits.get(t[1]), body.get(t[1])
+            if init is not None and step is not None:
+                lv = ("lv", t[2][1], t[1])
+                leaves = [lf for _c, lf in phi_leaves_(step)]
+                if leaves and all(lf == lv or (lf[0] == "add" and lv in lf[1:] and all(y == lv or y[0] == "num" for y in lf[1:])) for lf in leaves) \
+                        and any(lf != lv for lf in leaves):
+                    yield ("phi", ("wrap-loop", init), T.add(init, T.ONE), init)
+                yield from spine(init, depth + 1)
+
+    def phi_leaves_(t, conds=()):
+        if t[0] == "phi":
+            yield from phi_leaves_(t[2], conds + (t[1],))
+            yield from phi_leaves_(t[3], conds + (T.lnot(t[1]),))
+        else:
+            yield conds, t
+    for o in others:
+        if o.value[0] != "tuple":
+            continue
+        for comp in o.value[1:]:
+            n_comp += 1
+            for ph in spine(comp):
+                dependent = any(x[0] == "call" and x[1] == "Coordinates.equatorial2horizontal" for x in T.walk(ph[1])) or \
+                    any(x[0] == "call" and x[1] == "round" for x in T.walk(ph[1]))
+                if not dependent:
+                    continue
+                try:
+                    diff = Algebra(atomize=True).rat(T.sub(ph[2], ph[3]))
+                    const = diff.n.is_const() and diff.d.is_const() and diff.n.const_value() != 0
+                except Exception:
+                    const = False
+                if const and wrapped is None:
+                    wrapped = T.show(ph[1])[:90]
+    if wrapped:
+        rep.violation("R-REFINE", site, "wrap-after-refinement", "a returned time is shifted by a constant (whole day) depending on a test of the already corrected value "
+                      "(%s ...): the interpolated position belongs to the unshifted instant, so the body is not at the stated altitude / on the meridian at the "
+                      "returned time" % wrapped, obligation=True)
+    elif n_comp:
+        rep.ok("R-REFINE", site, "returned times are the last iterates plus their corrections; day wrapping happens only before the refinement", obligation=True)
     ar = {len(o.value) - 1 for o in outs if o.kind == "ret" and o.value[0] == "tuple"}
     if ar == {3}:
         rep.ok("R-ARITY", site, "every return is a 3-tuple")
